@@ -98,6 +98,24 @@ def analyse(prog, cg, true_value, functions=None):
     # inlined view of their callers, where the dereferences read as the fields themselves
     from engine import inline
     funcs = [inline.inlined(prog, f) for f in funcs]
+    # the address of an owning field (or of its flag) kept in a table or a variable: what is then written through that
+    # address is not a store this typestate can follow
+    from engine.facts import AnalysisBroken
+    for f in funcs:
+        for n in f.body.walk():
+            if n.k == 'UnaryOperator' and n.get('op') == '&' and n.ch:
+                fld = field_of(n.ch[0], fields) or field_of(n.ch[0], flags)
+                if fld in fields or fld in flags:
+                    par = n.parent
+                    while par is not None and par.k in ('ImplicitCastExpr', 'ParenExpr', 'CStyleCastExpr'):
+                        par = par.parent
+                    if par is not None and par.k == 'DeclStmt' and par.get('decls') and par['decls'][0].get('_param_of'):
+                        continue        # parameter of an inlined helper: its dereferences read as the field itself
+                    if par is not None and par.k in ('InitListExpr', 'DeclStmt') or (
+                            par is not None and par.k == 'BinaryOperator' and par.get('op') == '='):
+                        raise AnalysisBroken('%s keeps the address of the configuration field %s in a table or variable (%s): the '
+                                             'owning-field typestate does not follow stores made through it' % (
+                                                 f.name, fld, n.where()))
     # summaries: which owning fields does a function store to (transitively)?
     direct = {}
     for f in [inline.inlined(prog, f) for f in prog.functions]:
